@@ -137,4 +137,5 @@ func genC01(dir, tier string, seed int64) {
 		count("observed", obs[1:8])
 	}
 	cw.close()
+	genC01Real(tier, seed)
 }
